@@ -3,7 +3,6 @@ import MythVerif.Proofs.WsQueueTsoTac
 namespace MythVerif.WsqTso
 open MythVerif.Wsq
 
-set_option maxHeartbeats 4000000 in
 theorem t_vk4 (s s' : St) (p : Pid) (b r) : Inv s → s.tpc p = .vk4 b r → stepT s p = some s' → Inv s' := by
   intro h heq hs
   have hb := h.tbufE p (by simp [heq, mayBuf])
@@ -11,7 +10,6 @@ theorem t_vk4 (s s' : St) (p : Pid) (b r) : Inv s → s.tpc p = .vk4 b r → ste
   simp at hs; subst hs
   tso_fastT h p [vk4]
 
-set_option maxHeartbeats 4000000 in
 theorem t_vk5 (s s' : St) (p : Pid) (b) : Inv s → s.tpc p = .vk5 b → stepT s p = some s' → Inv s' := by
   intro h heq hs
   obtain ⟨hlb, htr, hsh⟩ := h.vk5 p b heq
@@ -32,7 +30,6 @@ theorem t_vk5 (s s' : St) (p : Pid) (b) : Inv s → s.tpc p = .vk5 b → stepT s
       exact hvu q hq
   tso_goalsT h p
 
-set_option maxHeartbeats 4000000 in
 theorem t_vu (s s' : St) (p : Pid) : Inv s → s.tpc p = .vu → stepT s p = some s' → Inv s' := by
   intro h heq hs
   have hcfg := h.cfg
@@ -51,7 +48,6 @@ theorem t_vu (s s' : St) (p : Pid) : Inv s → s.tpc p = .vu → stepT s p = som
     tso_fastT h p [vu]
   · simp at hs
 
-set_option maxHeartbeats 4000000 in
 theorem t_vr (s s' : St) (p : Pid) : Inv s → s.tpc p = .vr → stepT s p = some s' → Inv s' := by
   intro h heq hs
   have hb := h.tbufE p (by simp [heq, mayBuf])
